@@ -16,8 +16,8 @@ pub fn def() -> CheckDef {
 fn meta(_ctx: &Ctx) -> Meta {
     Meta {
         level: "exploration",
-        rule: "bounded-exhaustive component tuples (names over {a,1,.,-,_} up to length 3 starting alphanumeric; epoch in {\"\",0,1,12,2^31-1,2^31,2^32-1}; version and release non-empty over {a,1,.,~,^} up to length 2; arch in {x,x86_64,noarch,a1}) + seeded random tuples with components up to length 12 + the NEVRAs of the repository's asset packages: format with Display / as_normalized_form / nvra, parse again, compare component-wise with the tuple itself; every CompressionType through Display->FromStr; no-panic on all strings up to length 5 over {-,.,:,a,é} and on random text. The compression-type round trip is repeated in builds of the library with three other cargo feature sets (none, gzip only, the crate's default set; featprobe/). Runs in release and (random parts reduced) in the overflow-checking verifdbg profile. distinct_nontrivial = distinct tuples/strings".into(),
-        assumptions: vec!["real-package component constraints (rpm's own): name has no ':', version/release have no '-' or ':', arch has no '-', '.' or ':', epoch is digits or empty, all but epoch non-empty".into()],
+        rule: "bounded-exhaustive component tuples (names over {a,1,.,-,_} up to length 3 starting alphanumeric; epoch in {\"\",0,1,12,2^31-1,2^31,2^32-1}; version and release non-empty over {a,1,.,~,^} up to length 2; arch in {x,x86_64,noarch,a1,\"\"}; release also \"\") + seeded random tuples with components up to length 12 + the NEVRAs of the repository's asset packages: format with Display / as_normalized_form / nvra, parse again, compare component-wise with the tuple itself; every CompressionType through Display->FromStr; no-panic on all strings up to length 5 over {-,.,:,a,é} and on random text. The compression-type round trip is repeated in builds of the library with three other cargo feature sets (none, gzip only, the crate's default set; featprobe/). Runs in release and (random parts reduced) in the overflow-checking verifdbg profile. distinct_nontrivial = distinct tuples/strings".into(),
+        assumptions: vec!["real-package component constraints (rpm's own): name has no ':', version/release have no '-' or ':', arch has no '-', '.' or ':', epoch is digits or empty; name and version non-empty (release and arch may be empty text)".into()],
         floor_distinct: 1000,
     }
 }
@@ -54,8 +54,8 @@ fn judge_nevra(t: Tuple) -> Option<(String, String)> {
             .join("+");
         return Some((format!("nevra-roundtrip:{which}"), format!("Nevra{t:?} formats as {text:?} which parses as {:?}", y.values())));
     }
-    if y != x {
-        return Some(("nevra-roundtrip:not-equal".into(), format!("Nevra{t:?} -> {text:?} parses to an unequal value")));
+    if y != x || x != y {
+        return Some(("nevra-roundtrip:not-equal".into(), format!("Nevra{t:?} -> {text:?} parses to an unequal value (in one direction of == at least)")));
     }
     let norm = x.as_normalized_form();
     let e0 = if e.is_empty() { "0" } else { e };
@@ -65,6 +65,10 @@ fn judge_nevra(t: Tuple) -> Option<(String, String)> {
     let z = Nevra::parse(&norm);
     if z.values() != (n, e0, v, r, a) {
         return Some(("nevra-normalized-roundtrip".into(), format!("normalised form {norm:?} parses as {:?}", z.values())));
+    }
+    // "formatting and parsing again gives back an equal value": in both directions of ==
+    if z != x || x != z {
+        return Some(("nevra-normalized-roundtrip:not-equal".into(), format!("normalised form {norm:?} parses to a value that is not equal to Nevra{t:?} (in one direction of == at least)")));
     }
     if x.nvra() != format!("{n}-{v}-{r}.{a}") {
         return Some(("nevra-nvra".into(), format!("nvra of {t:?} is {:?}", x.nvra())));
@@ -76,7 +80,7 @@ fn judge_evr(e: &str, v: &str, r: &str) -> Option<(String, String)> {
     let x = Evr::new(e, v, r);
     let text = x.to_string();
     let y = Evr::parse(&text);
-    if y.values() != (e, v, r) || y != x {
+    if y.values() != (e, v, r) || y != x || x != y {
         return Some(("evr-roundtrip".into(), format!("Evr({e:?},{v:?},{r:?}) formats as {text:?} which parses as {:?}", y.values())));
     }
     let norm = x.as_normalized_form();
@@ -85,7 +89,7 @@ fn judge_evr(e: &str, v: &str, r: &str) -> Option<(String, String)> {
         return Some(("evr-normalized-form".into(), format!("normalised form is {norm:?}")));
     }
     let z = Evr::parse(&norm);
-    if z.values() != (e0, v, r) || z != x {
+    if z.values() != (e0, v, r) || z != x || x != z {
         return Some(("evr-normalized-roundtrip".into(), format!("normalised form {norm:?} parses as {:?}", z.values())));
     }
     None
@@ -108,7 +112,7 @@ fn run(ctx: &Ctx, rep: &Report) {
     let mut releases = comps.clone();
     releases.push(String::new());
     let epochs = ["", "0", "1", "10", "12", "100", "2147483647", "2147483648", "4294967290", "4294967295"];
-    let arches = ["x", "x86_64", "noarch", "a1"];
+    let arches = ["x", "x86_64", "noarch", "a1", ""];
     rep.count("names", names.len() as u64);
     rep.count("version_release_components", comps.len() as u64);
 
